@@ -4,12 +4,16 @@
    protocol actions of OffsetsFile.tla.
 
    Input: an ndjson file, one object per observed event on the offsets paths, many traces concatenated:
-     {tr, k, op, name, name2, fd, ok, trunc, w}
+     {tr, k, op, name, name2, fd, ok, trunc, app, w, n}
        op = reset                         a new trace starts: "cur" is a good durable file (write id 0)
             begin | end                   window of one save / commit call (harness markers)
             open | write | fsync | rename | unlink | close        the system call and its outcome
        name/name2 = "cur" | "t1".."t8" (temp files, numbered by first appearance), w = id of the bytes
-       a successful write put into the file (the bytes themselves stay with the driver).
+       a successful write put into the file (the bytes themselves stay with the driver), n = their number
+       (for reset: the size of the initial file), trunc / app = O_TRUNC / O_APPEND of an open.
+   File content is a sequence of SEGMENTS <<w, a, b>> = bytes a..b of write w; sizes, positions and keep are
+   in bytes (CLen <- SegLen).  A write lands at the descriptor's position and OVERWRITES what is there
+   (a file opened without O_TRUNC keeps its old tail behind a shorter new content).
 
    For every event the module
      (a) applies the system call's effect to the file-system model (always possible);
@@ -35,46 +39,65 @@ Trace == ndJsonDeserialize(TraceFile)
 
 VARIABLES l,        \* next trace line
           fds,      \* descriptor number -> inode (0 = not one of ours)
+          pos,      \* descriptor number -> file position;  app: descriptor opened with O_APPEND
+          app,
           wfail,    \* open/write/sync failures observed in the current window
           taint,    \* inode -> set of tags put on it by a bad rename onto "cur"
           lost,     \* protocol automaton out of sync until the next begin
           viols, drifts
 
-tvars == <<l, fds, wfail, taint, lost, viols, drifts>>
+tvars == <<l, fds, pos, app, wfail, taint, lost, viols, drifts>>
 FdNums == 0..255
+
+(* segment arithmetic *)
+SegLen1(sg) == sg[3] - sg[2] + 1
+RECURSIVE SegLen(_), SegTake(_, _), SegDrop(_, _)
+SegLen(c) == IF c = <<>> THEN 0 ELSE SegLen1(Head(c)) + SegLen(Tail(c))
+SegTake(c, k) == IF k <= 0 \/ c = <<>> THEN <<>>
+                 ELSE LET h == Head(c) IN
+                      IF SegLen1(h) <= k THEN <<h>> \o SegTake(Tail(c), k - SegLen1(h)) ELSE << <<h[1], h[2], h[2] + k - 1>> >>
+SegDrop(c, k) == IF c = <<>> THEN <<>> ELSE IF k <= 0 THEN c
+                 ELSE LET h == Head(c) IN
+                      IF SegLen1(h) <= k THEN SegDrop(Tail(c), k - SegLen1(h)) ELSE << <<h[1], h[2] + k, h[3]>> >> \o Tail(c)
+SegOver(c, p, sg) == SegTake(c, p) \o <<sg>> \o SegDrop(c, p + SegLen1(sg))
+
+\* position of a write on descriptor f, and the content it leaves
+WPos(e) == IF app[e.fd] THEN SegLen(vol[fds[e.fd]]) ELSE pos[e.fd]
+WRes(e) == IF e.ok /\ e.n > 0 THEN SegOver(vol[fds[e.fd]], WPos(e), <<e.w, 1, e.n>>) ELSE vol[fds[e.fd]]
+WN(e)   == IF e.ok THEN e.n ELSE 0
 
 Step1(w) == IF "write" \in w THEN "write" ELSE IF "sync" \in w THEN "fsync" ELSE "open"
 
 -----------------------------------------------------------------------------
-ResetFsP ==
+ResetFsP(e) ==
   /\ dir' = [n \in Names |-> IF n = "cur" THEN 1 ELSE 0]
   /\ curDur' = {1}
-  /\ vol'  = [i \in Inodes |-> IF i = 1 THEN <<0>> ELSE <<>>]
-  /\ base' = [i \in Inodes |-> IF i = 1 THEN <<0>> ELSE <<>>]
-  /\ keep' = [i \in Inodes |-> IF i = 1 THEN 1 ELSE 0]
+  /\ vol'  = [i \in Inodes |-> IF i = 1 THEN << <<0, 1, e.n>> >> ELSE <<>>]
+  /\ base' = [i \in Inodes |-> IF i = 1 THEN << <<0, 1, e.n>> >> ELSE <<>>]
+  /\ keep' = [i \in Inodes |-> IF i = 1 THEN e.n ELSE 0]
   /\ nextIno' = 2
-  /\ pc' = "idle" /\ fd' = 0 /\ tmpName' = "t1" /\ idx' = 1 /\ buf' = <<>> /\ failed' = {} /\ bad' = {}
-  /\ fds' = [n \in FdNums |-> 0] /\ wfail' = {} /\ taint' = [i \in Inodes |-> {}] /\ lost' = FALSE
+  /\ pc' = "idle" /\ fd' = 0 /\ fpos' = 0 /\ tmpName' = "t1" /\ idx' = 1 /\ buf' = <<>> /\ failed' = {} /\ bad' = {}
+  /\ fds' = [n \in FdNums |-> 0] /\ pos' = [n \in FdNums |-> 0] /\ app' = [n \in FdNums |-> FALSE] /\ wfail' = {} /\ taint' = [i \in Inodes |-> {}] /\ lost' = FALSE
   /\ UNCHANGED <<viols, drifts>>
 
 TInit ==
   /\ dir = [n \in Names |-> IF n = "cur" THEN 1 ELSE 0]
   /\ curDur = {1}
-  /\ vol  = [i \in Inodes |-> IF i = 1 THEN <<0>> ELSE <<>>]
-  /\ base = [i \in Inodes |-> IF i = 1 THEN <<0>> ELSE <<>>]
-  /\ keep = [i \in Inodes |-> IF i = 1 THEN 1 ELSE 0]
+  /\ vol  = [i \in Inodes |-> <<>>]
+  /\ base = [i \in Inodes |-> <<>>]
+  /\ keep = [i \in Inodes |-> 0]
   /\ nextIno = 2
-  /\ pc = "idle" /\ fd = 0 /\ tmpName = "t1" /\ idx = 1 /\ buf = <<>> /\ failed = {} /\ bad = {}
+  /\ pc = "idle" /\ fd = 0 /\ fpos = 0 /\ tmpName = "t1" /\ idx = 1 /\ buf = <<>> /\ failed = {} /\ bad = {}
   /\ jobs = InitVec /\ held = [j \in Jobs |-> {InitVec[j]}]
   /\ ncommits = 0 /\ nsaves = 0 /\ nfaults = 0 /\ sched = <<>> /\ sfail = {} /\ mid = FALSE /\ crashed = FALSE
-  /\ l = 1 /\ fds = [n \in FdNums |-> 0] /\ wfail = {} /\ taint = [i \in Inodes |-> {}] /\ lost = FALSE
+  /\ l = 1 /\ fds = [n \in FdNums |-> 0] /\ pos = [n \in FdNums |-> 0] /\ app = [n \in FdNums |-> FALSE] /\ wfail = {} /\ taint = [i \in Inodes |-> {}] /\ lost = FALSE
   /\ viols = <<>> /\ drifts = <<>>
 
 -----------------------------------------------------------------------------
 (* (a) raw effect of an observed system call on the file-system model *)
 RawFs(e) ==
   CASE e.op = "open"   /\ e.ok -> FsOpen(e.name, e.trunc)
-    [] e.op = "write"  /\ e.ok /\ fds[e.fd] # 0 -> FsWrite(fds[e.fd], <<e.w>>)
+    [] e.op = "write"  /\ e.ok /\ fds[e.fd] # 0 -> FsWrite(fds[e.fd], WRes(e), WPos(e))
     [] e.op = "fsync"  /\ e.ok /\ fds[e.fd] # 0 -> FsSync(fds[e.fd])
     [] e.op = "rename" /\ e.ok /\ dir[e.name] # 0 -> FsRename(e.name, e.name2)
     [] e.op = "unlink" /\ e.ok -> FsUnlink(e.name)
@@ -82,7 +105,7 @@ RawFs(e) ==
 
 (* (b) the protocol automaton *)
 ProtoGuard(e) ==
-  CASE e.op = "open"   -> pc = "open" /\ e.name # "cur" /\ e.trunc
+  CASE e.op = "open"   -> pc = "open" /\ e.name # "cur" /\ e.trunc /\ ~e.app
     [] e.op = "write"  -> pc = "write" /\ fds[e.fd] = fd /\ fd # 0
     [] e.op = "fsync"  -> pc = "sync" /\ fds[e.fd] = fd /\ fd # 0
     [] e.op = "rename" -> pc = "rename" /\ e.name = tmpName /\ e.name2 = "cur" /\ dir[e.name] # 0
@@ -92,7 +115,7 @@ ProtoGuard(e) ==
 
 ProtoStep(e) ==
   CASE e.op = "open"   -> POpen(e.ok, e.name)
-    [] e.op = "write"  -> PWrite(e.ok, IF e.ok THEN <<e.w>> ELSE <<>>)
+    [] e.op = "write"  -> PWrite(e.ok, WRes(e), WN(e))
     [] e.op = "fsync"  -> PSync(e.ok)
     [] e.op = "rename" -> PRename(e.ok)
     [] e.op = "unlink" -> PUnlink(e.ok)
@@ -103,12 +126,12 @@ DriftRec(e) == [tr |-> e.tr, k |-> e.k, op |-> e.op, ok |-> e.ok, pc |-> pc]
 FsProto(e) ==
   IF e.op = "begin" THEN
        /\ UNCHANGED fsvars
-       /\ pc' = "open" /\ failed' = {} /\ buf' = <<>> /\ idx' = 1 /\ UNCHANGED <<fd, tmpName, bad>>
+       /\ pc' = "open" /\ failed' = {} /\ buf' = <<>> /\ idx' = 1 /\ UNCHANGED <<fd, fpos, tmpName, bad>>
        /\ lost' = FALSE
        /\ drifts' = IF ~lost /\ pc # "idle" THEN Append(drifts, DriftRec(e)) ELSE drifts
   ELSE IF e.op = "end" THEN
        /\ UNCHANGED fsvars
-       /\ pc' = "idle" /\ UNCHANGED <<fd, tmpName, idx, buf, failed, bad>>
+       /\ pc' = "idle" /\ UNCHANGED <<fd, fpos, tmpName, idx, buf, failed, bad>>
        /\ lost' = FALSE
        /\ drifts' = IF ~lost /\ pc \notin {"idle", "open"} THEN Append(drifts, DriftRec(e)) ELSE drifts
   ELSE IF ~lost /\ ProtoGuard(e) THEN
@@ -118,9 +141,13 @@ FsProto(e) ==
        /\ drifts' = IF lost THEN drifts ELSE Append(drifts, DriftRec(e))
 
 FdsStep(e) ==
-  fds' = CASE e.op = "open"  /\ e.ok -> [fds EXCEPT ![e.fd] = OpenTarget(e.name)]
-           [] e.op = "close" /\ e.ok -> [fds EXCEPT ![e.fd] = 0]
-           [] OTHER -> fds
+  /\ fds' = CASE e.op = "open"  /\ e.ok -> [fds EXCEPT ![e.fd] = OpenTarget(e.name)]
+             [] e.op = "close" /\ e.ok -> [fds EXCEPT ![e.fd] = 0]
+             [] OTHER -> fds
+  /\ pos' = CASE e.op = "open"  /\ e.ok -> [pos EXCEPT ![e.fd] = 0]
+             [] e.op = "write" /\ e.ok /\ fds[e.fd] # 0 -> [pos EXCEPT ![e.fd] = WPos(e) + e.n]
+             [] OTHER -> pos
+  /\ app' = IF e.op = "open" /\ e.ok THEN [app EXCEPT ![e.fd] = e.app] ELSE app
 
 (* (c) property monitors on the observed history *)
 Mon(e) ==
@@ -145,13 +172,13 @@ Mon(e) ==
 -----------------------------------------------------------------------------
 TSkip ==       \* the per-job snapshot loop makes no system call
   /\ pc = "snap" /\ pc' = "write"
-  /\ UNCHANGED <<fd, tmpName, idx, buf, failed, bad>> /\ UNCHANGED fsvars /\ UNCHANGED evars /\ UNCHANGED tvars
+  /\ UNCHANGED <<fd, fpos, tmpName, idx, buf, failed, bad>> /\ UNCHANGED fsvars /\ UNCHANGED evars /\ UNCHANGED tvars
 
 Consume ==
   /\ pc # "snap" /\ l <= Len(Trace)
   /\ LET e == Trace[l] IN
        /\ l' = l + 1
-       /\ IF e.op = "reset" THEN ResetFsP
+       /\ IF e.op = "reset" THEN ResetFsP(e)
           ELSE FsProto(e) /\ FdsStep(e) /\ Mon(e)
   /\ UNCHANGED evars
 
